@@ -566,7 +566,8 @@ def recv_oracle(run, case, props, wf):
                 if 'C02' in props and 'C01' not in props and not cfg['balance'] and mids != [rid]:
                     run.violation('provenance:wrong-id src=%d ids=%s returned=%d' % (i, mids, rid),
                                   'the set returned as id %d carries frames that were published under ids %s' % (rid, mids), summary)
-                if 'C01' in props and not cfg['balance'] and mids != [rid]:
+                if props & {'C01', 'C05'} and not cfg['balance'] and mids != [rid] and ('C01' in props or any(x['eph'] for x in cfg['srcs'])):
+                    # (C05: with an ephemeral source attached to the same receiver, what the synchronized sources deliver is unchanged)
                     run.violation('mixed-ids:sync-source src=%d ids=%s returned=%d' % (i, mids, rid),
                                   'a set returned under id %d holds frames published under ids %s' % (rid, mids), summary)
                 if 'C07' in props and cfg['balance'] and mids != [rid]:
@@ -755,7 +756,7 @@ class SendWorld:
             kind, k, back = ent[:3]
             self._plan_dt = ent[3] if len(ent) > 3 else None      # virtual ms that pass before this message is read
             c = self.consumers[k]
-            mid = -3 if kind == 'close' else max(base - 1 - back, -1)
+            mid = -3 if kind == 'close' else -2 if kind == 'oob' else max(base - 1 - back, -1)
         elif r < (0.12 if getattr(self.snd, 'balance', False) else 0.04):
             mid, kind = -3, 'close'
         elif r < 0.07:
@@ -843,8 +844,22 @@ def run_sender_case(rng, budget=70, adversarial=False):
             w.consumers[k].update(cid=k + 1, eph=0)
         w.plan = [('req', 0, 0, 5), ('none', 0, 0), ('req', 0, 0, 10), ('req', 1, 0, 10), ('none', 0, 0),
                   ('req', 0, 0, 50), ('req', 0, 0, 2500), ('req', 0, 0, 2500), ('req', 0, 0, 2000), ('req', 1, 0, 100), ('none', 0, 0)]
+    if not balance and ncons >= 2 and not getattr(w, 'plan', None) and rng.random() < 0.2:
+        # directed prefix: a synchronized consumer and a '?' listener; in every round the consumer asks for the next frame and THEN
+        # the listener says something - leaves (CLOSE), comes back (hello), sends an out-of-band message, asks - before the inbox
+        # runs empty: the frame the consumer asked for goes out regardless
+        w.consumers[0].update(cid=1, eph=0)
+        w.consumers[1].update(cid=2, eph=1)
+        w.plan = [('req', 0, 0), ('req', 1, 0), ('none', 0, 0), ('req', 0, 0), ('req', 1, 0), ('none', 0, 0)]
+        for _ in range(rng.randint(2, 5)):
+            w.plan += [('req', 0, 0), (rng.choice(['close', 'req', 'oob', 'req']), 1, 0), ('none', 0, 0), ('none', 0, 0)]
+        directed_listener = True
+    else:
+        directed_listener = False
     required = [c['cid'] for c in w.consumers if rng.random() < 0.3]
-    if rng.random() < 0.1:
+    if directed_listener:
+        required = [r for r in required if r != 2]
+    if rng.random() < 0.1 and not directed_listener:
         required.append(9)    # a required output that never shows up
     if not getattr(w, "plan", None) and rng.random() < 0.12:
         # two consumers whose names are in a prefix relation ('c1' and 'c12': 'view' and 'view2'); the shorter name is a required
@@ -1087,45 +1102,68 @@ def send_oracle(run, case, props):
     if 'C05' in props and not cfg['balance']:
         # a '?' listener never delays the publisher: once a synchronized client's request has opened the gate (every tracked
         # synchronized client has asked, every required output is connected), whatever ephemeral listeners say afterwards -
-        # a request, an out-of-band message, CLOSE - leaves it open, and the frame in hand goes out when the inbox is empty
+        # a request, an out-of-band message, CLOSE, the hello of one that is just attaching - leaves it open, and the frame in
+        # hand goes out when the inbox is empty (the poll right after a hello is soaked up by the handshake: then the next one)
         items = case['items']
-        for k in range(2, len(items)):
-            raw = items[k][3]
-            if raw[0] != 'poll' or raw[1] is not None or _in_push_call(items, k):
-                continue
-            call = next((items[j][3] for j in range(k, -1, -1) if items[j][3][0] == 'call'), None)
-            if call is None or call[3] is None:
-                continue
-            j, listeners, ok = k - 1, [], True
-            while j > 0 and items[j][3][0] == 'poll' and items[j][3][1] and items[j - 1][2] is not None and items[j][2] is not None:
-                m = items[j][3][1]
-                before = {(c[0], c[1]): c for c in items[j - 1][2][1]}
-                ent = before.get((m['cid'], m['uid']))
-                # (a first contact - untracked, 'new' - is answered with HELLO and soaks up the next poll: not judged here)
-                is_listener = ent is not None and ent[5] == 1 and (m['mid'] <= -2 or m['eph']) and m['cid'] not in cfg['required']
-                if not is_listener:
-                    break
-                listeners.append(j)
-                j -= 1
-            if not listeners or j < 1:
-                continue
+        for j in range(1, len(items) - 1):
             rj = items[j][3]
             if rj[0] != 'poll' or not rj[1] or rj[1]['mid'] <= -2 or rj[1]['eph'] or items[j][2] is None or items[j - 1][2] is None:
                 continue
+            if _in_push_call(items, j):
+                continue
+            call = next((items[l][3] for l in range(j, -1, -1) if items[l][3][0] == 'call'), None)
+            if call is None or call[3] is None:
+                continue
             if (rj[1]['cid'], rj[1]['uid']) not in {(c[0], c[1]) for c in items[j - 1][2][1]}:
-                continue            # first contact: not registered
-            if any(o[0] in ('P', 'x', 'r') for l in range(j, k) for o in items[l][1]):
-                continue            # published already, or the call ended there (a newer id was adopted)
-            tabs = [items[l][2][1] for l in range(j, k)]
-            if not all(all(any(c[0] == r for c in tab) for r in cfg['required']) for tab in tabs):
+                continue            # first contact of the synchronized client itself: not registered
+            if any(o[0] in ('P', 'x', 'r') for o in items[j][1]):
                 continue
-            if not all(all(c[4] or c[5] for c in tab) for tab in tabs) or not any(c[4] and not c[5] for c in tabs[0]):
+            tab = items[j][2][1]
+            if not all(any(c[0] == r for c in tab) for r in cfg['required']):
                 continue
-            if not any(o[0] in ('P', 'x') for o in items[k][1]):
-                run.violation('listener:withdraws-decision after=%s' % ['close' if items[l][3][1]['mid'] == -3 else 'oob' if items[l][3][1]['mid'] == -2 else 'request' for l in reversed(listeners)],
+            if not all(c[4] or c[5] for c in tab) or not any(c[4] and not c[5] for c in tab):
+                continue
+            listeners, hellos, empties, k = [], 0, 0, j + 1
+            verdict = None
+            while k < len(items) and items[k][3][0] == 'poll' and items[k][2] is not None:
+                m = items[k][3][1]
+                if any(o[0] in ('P', 'x') for o in items[k][1]):
+                    verdict = 'ok'
+                    break
+                if any(o[0] == 'r' for o in items[k][1]):
+                    # the call ended (timed out) without publishing: with the gate open and only listeners heard since, it was held
+                    verdict = 'held' if listeners and m is None else None
+                    break
+                if m is None:
+                    empties += 1
+                    if empties > (1 if hellos else 0) and listeners:
+                        verdict = 'held'
+                        break
+                    if not listeners:
+                        break            # nobody spoke: the plain case, judged by the correspondence
+                    k += 1
+                    continue
+                before = {(c[0], c[1]): c for c in items[k - 1][2][1]}
+                ent = before.get((m['cid'], m['uid']))
+                hello = ent is None and bool(m.get('new')) and bool(m['eph']) and m['mid'] > -2 and cfg.get('handshake', True)
+                tracked_listener = ent is not None and ent[5] == 1 and (m['mid'] <= -2 or m['eph'])
+                if m['cid'] in cfg['required'] or not (hello or tracked_listener):
+                    break
+                tabk = items[k][2][1]
+                if not all(any(c[0] == r for c in tabk) for r in cfg['required']) or not all(c[4] or c[5] for c in tabk):
+                    break
+                listeners.append(k)
+                hellos += int(hello)
+                empties = 0
+                k += 1
+            if verdict == 'held':
+                kinds = ['hello' if (items[l][3][1].get('new') and (items[l][3][1]['cid'], items[l][3][1]['uid']) not in {(c[0], c[1]) for c in items[l - 1][2][1]})
+                         else 'close' if items[l][3][1]['mid'] == -3 else 'oob' if items[l][3][1]['mid'] == -2 else 'request' for l in listeners]
+                run.violation('listener:withdraws-decision after=%s' % kinds,
                               "item %d: the synchronized client c%d's request had opened the gate (every synchronized client asked, required outputs connected); "
-                              "then only '?' listeners spoke (items %s) and the frame in hand was not published when the inbox ran empty"
-                              % (k, rj[1]['cid'], sorted(listeners)), dict(summary, observed=[[l, items[l][1], items[l][2]] for l in range(j - 1, k + 1)]))
+                              "then only '?' listeners spoke (items %s) and the frame in hand was not published when the inbox ran empty (item %d)"
+                              % (j, rj[1]['cid'], listeners, k), dict(summary, observed=[[l, items[l][1], items[l][2]] for l in range(j - 1, min(k + 1, len(items)))]))
+                break
     if props & {'C05', 'C07'} and cfg['balance']:
         # a splitter's gate, judged on the client table: an endpoint is ready when every client on it has asked or is an ephemeral
         # listener and at least one has asked; with every required output connected, a ready endpoint means the frame in hand
